@@ -70,8 +70,15 @@ func c18Counts(c *Ctx) (nBase, perBase int64) {
 func init() {
 	register("C18", &PropDef{
 		Setup: func(c *Ctx) { gen.LoadTexts(c.Repo) },
-		Total: func(c *Ctx) int64 { a, b := c18Counts(c); return a * b },
-		Run:   c18Case,
+		Total: func(c *Ctx) int64 { a, b := c18Counts(c); return a*b + numLevelCasesCR() },
+		Run: func(c *Ctx, i int64) {
+			a, b := c18Counts(c)
+			if i >= a*b {
+				levelCaseCR(c, i-a*b) // "reflects the applied options": the compression level
+				return
+			}
+			c18Case(c, i)
+		},
 	})
 }
 
@@ -315,7 +322,7 @@ func c18Case(c *Ctx, i int64) {
 	// (whatever state the previous stream was left in)
 	if chunk == 1 {
 		data2full := mixData(gi, 1000+gi.N(70000))
-		for scen := 0; scen < 6; scen++ {
+		for scen := 0; scen < 8; scen++ {
 			// the second stream is sometimes empty or a few bytes: nothing of the first may show in it
 			data2 := data2full
 			switch (scen + int(base)) % 3 {
@@ -333,10 +340,25 @@ func c18Case(c *Ctx, i int64) {
 				src1.Source.FailAt = scen - 3
 				src1.Source.MaxChunk = 5000
 			}
+			// scenarios 6 and 7: the next user of the reader applies options of its own after Reset:
+			// a smaller block size with a source longer than one such block, and a larger block size
+			o1, o2 := o, o
+			if scen >= 6 {
+				o2.bc, o2.cc = !o.bc, !o.cc
+				if scen == 6 {
+					o1.bs, o2.bs = lz4.Block256Kb, lz4.Block64Kb
+				} else {
+					o1.bs, o2.bs = lz4.Block64Kb, lz4.Block256Kb
+				}
+				if o2.size != 0 {
+					o2.size += 3
+				}
+				data2 = mixData(gi, 300000+gi.N(1000))
+			}
 			src2 := &crSource{Source: &gen.Source{Data: data2, Budget: 100000}}
 			if c.Guard("CompressingReader.reuse", func() {
 				zr := lz4.NewCompressingReader(src1)
-				if err := zr.Apply(o.options()...); err != nil {
+				if err := zr.Apply(o1.options()...); err != nil {
 					err2 = err
 					return
 				}
@@ -348,7 +370,7 @@ func c18Case(c *Ctx, i int64) {
 					}
 				case 1: // consumed by one exact-length read: io.EOF never observed
 					zr.Read(buf[:len(frame)])
-				case 2: // read to io.EOF with small buffers
+				case 2, 6, 7: // read to io.EOF with small buffers
 					for k := 0; k < 1<<20; k++ {
 						if _, err := zr.Read(buf[:1+k%977]); err != nil {
 							break
@@ -363,6 +385,12 @@ func c18Case(c *Ctx, i int64) {
 					}
 				}
 				zr.Reset(src2)
+				if scen >= 6 {
+					if err := zr.Apply(o2.options()...); err != nil {
+						err2 = fmt.Errorf("Apply after Reset: %w", err)
+						return
+					}
+				}
 				for k := 0; ; k++ {
 					sz := []int{4096, 7, 100000}[k%3]
 					n, err := zr.Read(buf[:sz])
@@ -388,10 +416,10 @@ func c18Case(c *Ctx, i int64) {
 			}
 			c.Count("reuse_scenarios", 1)
 			res := crResult{frame: frame2, err: err2, badCall: bad}
-			saved := data
-			data = data2
-			judge(res, fmt.Sprintf("after-reset/scenario%d", scen), map[string]interface{}{"opts": o.String(), "first_source_len": len(saved), "second_source_len": len(data2), "scenario": []string{"abandoned mid-stream", "exact-length read", "read to EOF", "never read", "source failed at call 1", "source failed at call 2"}[scen]})
-			data = saved
+			saved, savedO := data, o
+			data, o = data2, o2
+			judge(res, fmt.Sprintf("after-reset/scenario%d", scen), map[string]interface{}{"opts": o.String(), "first_opts": o1.String(), "first_source_len": len(saved), "second_source_len": len(data2), "scenario": []string{"abandoned mid-stream", "exact-length read", "read to EOF", "never read", "source failed at call 1", "source failed at call 2", "read to EOF, then Reset and Apply(smaller block size, other checksums)", "read to EOF, then Reset and Apply(larger block size, other checksums)"}[scen]})
+			data, o = saved, savedO
 			c.Cell(fmt.Sprintf("%s/src%d/reuse/scenario%d", o.String(), len(data), scen))
 		}
 	}
